@@ -30,10 +30,13 @@
     - [exact v]: v is an int or a Fraction; [exact_numbers t]: all of
       [numbers t] are;
     - [reduced v]: a Fraction in lowest terms (Python keeps them so);
-    - [float_stable v]: for a float v, v * 1 evaluates to v. *)
+    - [float_stable v]: for a float v, v * 1 evaluates to v;
+    - [wf_float v] / [wf_num v]: v is (if a float) a finite binary64 value
+      m * 2^e in canonical form: m odd, |m| < 2^53, e >= -1074, below 2^1024,
+      or (0, 0). *)
 From Coq Require Import List ZArith NArith QArith Bool String Lia.
 From RG Require Import Base.Str Base.Num Model.Recipe Spec.Valid
-  Proofs.RecipeInd Proofs.RecipeValid Proofs.RecipeScale.
+  Proofs.RecipeInd Proofs.RecipeValid Proofs.RecipeScale Proofs.RecipeB64 Proofs.RecipeScaleOne.
 Import ListNotations.
 
 (** ** 1. Exactly the scalable numbers change, each to [v * k] *)
@@ -76,15 +79,16 @@ Proof. vm_compute. split; [reflexivity | discriminate]. Qed.
 
 (** ** 3. Scaling by one *)
 
-(** Full statement (kept here):
-      forall t t', scale_node (NInt 1) t = Some t' -> node_eqb t t' = true
-    and the same for the factor Fraction(1).
-    Proved for every tree whose floats satisfy [x * 1 = x] ([float_stable];
-    ints and Fractions need nothing).  That every finite binary64 value is
-    stable is a fact about the rounding function [b64] (it returns an already
-    representable value unchanged) which is validated by the correspondence
-    suite "scale" (factor 1 on trees with floats) but not proved here. *)
-Theorem C03_scale_one_partial : forall t t',
+(** Scaling by the int 1 gives a tree [==] to the original, for every tree
+    whose floats are finite binary64 values in canonical form ([wf_num]: the
+    representation invariant of Base/Num.v; ints and Fractions need nothing):
+    [b64] returns a representable value unchanged (Proofs/RecipeB64.v). *)
+Theorem C03_scale_one : forall t t',
+  Forall wf_num (numbers t) -> scale_node (NInt 1) t = Some t' -> node_eqb t t' = true.
+Proof. exact scale_one_eqb. Qed.
+
+(** The underlying statement with the stability of each float as hypothesis. *)
+Theorem C03_scale_one_stable : forall t t',
   Forall float_stable (numbers t) -> scale_node (NInt 1) t = Some t' -> node_eqb t t' = true.
 Proof. exact scale_one_stable. Qed.
 
@@ -95,24 +99,26 @@ Theorem C03_scale_unit_exact : forall k t t',
   exact k -> to_Q k == 1 -> exact_numbers t -> scale_node k t = Some t' -> node_eqb t t' = true.
 Proof. exact scale_unit_exact. Qed.
 
-(** With the int 1 the result is the very same tree (Fractions in lowest terms). *)
+(** With the int 1 the result is the very same tree (Fractions in lowest
+    terms, as Python keeps them; floats well formed). *)
 Theorem C03_scale_one_identity : forall t t',
-  Forall (fun v => (exact v /\ reduced v) \/ nmul v (NInt 1) = NOk v) (numbers t) ->
+  Forall (fun v => (exact v /\ reduced v) \/ wf_float v) (numbers t) ->
   scale_node (NInt 1) t = Some t' -> t' = t.
-Proof. exact scale_one_identity. Qed.
+Proof. exact scale_one_same. Qed.
 
 Example C03_scale_one_ex :
   let t := Ingredient [PStr (s "x "); PNum (NFloat 5 (-1)); PNum (NFrac 2 3)] (Some (mkQ (NInt 3) None [] [])) in
-  Forall float_stable (numbers t) /\
-  Forall (fun v => (exact v /\ reduced v) \/ nmul v (NInt 1) = NOk v) (numbers t) /\
+  Forall wf_num (numbers t) /\
+  Forall (fun v => (exact v /\ reduced v) \/ wf_float v) (numbers t) /\
   scale_node (NInt 1) t = Some t /\
   (exact (NFrac 1 1) /\ to_Q (NFrac 1 1) == 1) /\
   scale_node (NFrac 1 1) (Ingredient [] (Some (mkQ (NInt 3) None [] []))) =
     Some (Ingredient [] (Some (mkQ (NFrac 3 1) None [] []))).
 Proof.
   split; [|split; [|split; [|split]]].
-  - repeat constructor; intro; vm_compute; reflexivity.
-  - constructor; [right; vm_compute; reflexivity|].
+  - constructor; [intros _; right; vm_compute; repeat split; discriminate|].
+    repeat constructor; intro; discriminate.
+  - constructor; [right; right; vm_compute; repeat split; discriminate|].
     constructor; [left; split; reflexivity|].
     constructor; [left; split; [reflexivity | exact I]|]. constructor.
   - vm_compute. reflexivity.
